@@ -121,9 +121,10 @@ META = {
  "C17": dict(
   explanation="(a) relational virtual-FS harness: same tree listed in another order (incl. names differing only in letter case), run from another working directory with a relative input path, "
               "or after another input was documented with the same Settings object (as main() does) => identical recorded writes; "
+              "(d) hash seed: inside the cminx modules set/frozenset are replaced by a model whose iteration order the harness chooses (insertion order / reversed); main() run under both orders hands the exclude patterns to the matcher in the same order; "
               "(b) frame lemma: processing any pair of command kinds leaves RSTWriter.heading_level_chars, the constructors' default Settings instances and the passed Settings unchanged, "
               "and re-processing after an unrelated file gives the same page; (c) lone file: title/module name = base name, independent of the location.",
-  assumptions=["as C13"], outside=["hash-seed independence is NOT decided (no symbolic handle on PYTHONHASHSEED)"], trusted=TRUSTED_CH),
+  assumptions=["as C13"], outside=["hash-seed dependence through anything but the iteration order of set/frozenset objects built in cminx's own modules (explicit hash() calls, sets built inside third-party code) is not decided", "the set model offers two orders (insertion, reversed), not every permutation"], trusted=TRUSTED_CH),
  "C18": dict(
   explanation="(a) every recorded makedirs/write lies under the output directory for every placement of it (elsewhere, nested in the input tree, parent of it, relative), nothing is printed; CrossHair's "
               "side-effect guard is on: no real file-system write happens on any explored path; (b) stdout mode: nothing written, stdout == exactly the pages of the -o run, each followed by one empty line, sorted within a directory.",
@@ -131,7 +132,8 @@ META = {
  "C19": dict(
   explanation="E3: the body of cminx_gen_rst is parsed from cmake/cminx.cmake and interpreted over z3 string terms (DFS over the symbolic IS_DIRECTORY condition, |ARGN| = 0..3); "
               "negated spec_argv (input verbatim, -o output, -r iff directory, extra arguments as one ordered block, COMMAND_ERROR_IS_FATAL ANY) is unsat; list(APPEND/PREPEND/REMOVE_DUPLICATES) and "
-              "get_filename_component (uninterpreted) are interpreted; witnesses and fixtures are replayed with the real cmake -P (input reached through a symbolic link).",
+              "get_filename_component (uninterpreted) are interpreted, as are if() conditions built with NOT/AND/OR over IS_DIRECTORY, EXISTS, STREQUAL, DEFINED and variable truth, cmake_parse_arguments, "
+              "file(GLOB*/STRINGS) (file-system answers = arbitrary values chosen by the solver, made true on disk for the replay); witnesses and fixtures are replayed with the real cmake -P (input reached through a symbolic link).",
   assumptions=["extra arguments non-empty and free of ';' (CMake list semantics)", "argparse is order-insensitive between optionals"],
   outside=["the generated cminx-config.cmake (needs an install tree)"], trusted=["z3", "lib/e3.py interpreter (validated against cmake -P on every run)"]),
  "C20": dict(
